@@ -33,6 +33,8 @@ def cases(seed, tier):
     fams = ["ids", "cover", "bincount", "cover", "bincount", "bincount-edges", "tangent"]
     for i in range(n):
         yield {"family": fams[i % len(fams)], "sub": int(rng.integers(0, 2**31))}
+    for i in range(1 if tier == "quick" else 6):
+        yield {"family": "big", "sub": int(rng.integers(0, 2**31)), "first": i == 0, "cap": 2 ** 21 + 1 if tier == "quick" else None}
 
 
 # ---------------------------------------------------------------------------------------------------------------
@@ -424,9 +426,21 @@ def run_bincount(case, rng, edges=False):
     probe.attempt(htm.HTM(d2).bincount, rmin, rmax, nbin, ra1, dec1, ra2, dec2, **kw)
 
 
+def run_big(case, rng):
+    from esutil import htm
+    n = gen.big_size(rng, cap=case.get("cap"), first=case.get("first", False))
+    ra, dec = H.uniform(rng, n)
+    win = gen.windows(rng, n)
+    COL.sample({"family": "big", "n": n}, limit=2)
+    for depth in (int(rng.integers(1, 8)), int(rng.integers(8, 21))):
+        probe.big_vs_windows("C13.ids", "lookup_id", htm.HTM(depth).lookup_id, [ra, dec], win, wit={"depth": depth})
+
+
 def run_case(case):
     rng = np.random.default_rng(case["sub"])
     fam = case["family"]
+    if fam == "big":
+        return run_big(case, rng)
     if fam == "ids":
         run_ids(case, rng)
     elif fam == "cover":
